@@ -1,4 +1,4 @@
 Require Import Extraction ExtrOcamlBasic.
 Require Import Base.Prelude Base.XVal C01.Model.
 Extraction Language OCaml.
-Extraction "model.ml" run_whole run_overlap run_blocks xconv xcurv xhorn xapply xmean_part.
+Extraction "model.ml" run_whole run_overlap run_blocks xconv xcurv xhorn xhill xapply xmean_part zramp_whole zramp_blocks.
